@@ -282,7 +282,7 @@ Do(st, op) ==
 
     [] op.op = "remove" ->
          IF (~IsBoundary(t, op.n)) \/ op.n >= len THEN Out(st, Res(c0, "panic", <<>>, "index"))
-         ELSE LET w  == WidthOfLead(t[op.n + 1])
+         ELSE LET w  == Min(WidthOfLead(t[op.n + 1]), len - op.n)
                   ch == SubSeq(t, op.n + 1, op.n + w)
                   nt == SubSeq(t, 1, op.n) \o SubSeq(t, op.n + w + 1, len)
                   cr == EnsureModF(c0, f, r) IN
